@@ -68,6 +68,58 @@ Theorem C11_interleavings_permutation : forall tasks ev1 ev2,
 Proof. exact interleavings_permutation. Qed.
 Print Assumptions C11_interleavings_permutation.
 
+(* ---- atomicity of symbol interning as a NAMED hypothesis ----
+   [AIntern] of the model is one atomic action (value.SymbolTableStruct.Add: lookup and insert inside
+   one write-locked critical section; C26 checks the table itself).  The micro-step machine [mexec]
+   splits Add into lookup ([MLook], result remembered by the task) and insert ([MIns]: remembered
+   hit -> that id, remembered miss -> BLIND append), which is what a read-locked fast path without
+   a re-check under the write lock does.  [intern_atomic mev]: every lookup is immediately followed
+   by the same task's insert of the same name (nothing is scheduled inside an Add). *)
+
+(* under intern_atomic the split machine is the atomic model on the collapsed schedule *)
+Theorem C11_intern_atomic_refines : forall memo env mev s p,
+  intern_atomic mev -> mexec memo env mev s p = exec memo env (collapse mev) s.
+Proof. exact mexec_atomic. Qed.
+Print Assumptions C11_intern_atomic_refines.
+
+(* every coarse schedule is the collapse of an intern_atomic micro schedule (the hypothesis is satisfiable
+   for every interleaving, so nothing is lost by stating confluence on micro schedules) *)
+Theorem C11_intern_atomic_expand : forall ev, intern_atomic (expand ev) /\ collapse (expand ev) = ev.
+Proof. intros ev. split; [apply expand_atomic|apply collapse_expand]. Qed.
+Print Assumptions C11_intern_atomic_expand.
+
+(* confluence, with the assumption that a non-atomic Add breaks spelled out *)
+Theorem C11_confluence_intern_atomic : forall memo env tasks mev1 mev2 s0 p1 p2 r1 f1 r2 f2,
+  NoDup (syms s0) ->
+  intern_atomic mev1 -> intern_atomic mev2 ->
+  interleaving tasks (collapse mev1) -> interleaving tasks (collapse mev2) ->
+  mexec memo env mev1 s0 p1 = (r1, f1) -> mexec memo env mev2 s0 p2 = (r2, f2) ->
+  Permutation (diags f1) (diags f2) /\
+  (forall n, In n (syms f1) <-> In n (syms f2)) /\ NoDup (syms f1) /\ NoDup (syms f2) /\
+  (forall k, In k (cache f1) <-> In k (cache f2)) /\
+  (forall t, t < List.length tasks ->
+     map (ren (syms f1) (syms f2)) (events_of t r1) = events_of t r2).
+Proof. exact confluence_intern_atomic. Qed.
+Print Assumptions C11_confluence_intern_atomic.
+
+(* WITHOUT intern_atomic the conclusion fails: a well-formed schedule of the split Add (task 1's lookup
+   between the two halves of task 0's Add) in which two tasks obtain different ids for one name, the
+   table holds the name twice, and task 1 itself gets two different ids for the same name (declares
+   its local under id 1, looks it up under id 0 - the spurious `undefined local`); the sequential run
+   of the same tasks gives id 0 throughout.  So no renaming relates the two runs. *)
+Theorem C11_nonatomic_intern_refuted :
+  exists tasks mev,
+    split_wf_b [] mev = true /\ interleaving tasks (collapse mev) /\ ~ intern_atomic mev /\
+    forall memo env,
+      let run := mexec memo env mev shared0 pend0 in
+      let seq := exec memo env (sequential tasks) shared0 in
+      events_of 0 (fst run) = [RId 0] /\ events_of 1 (fst run) = [RId 1; RId 0] /\
+      ~ NoDup (syms (snd run)) /\
+      events_of 0 (fst seq) = [RId 0] /\ events_of 1 (fst seq) = [RId 0; RId 0] /\
+      NoDup (syms (snd seq)).
+Proof. exact nonatomic_intern_refuted. Qed.
+Print Assumptions C11_nonatomic_intern_refuted.
+
 (* ---- non-vacuity: two tasks, an interleaved schedule that needs limit 2, ids really differ ---- *)
 Definition c11_tasks : list (list action) :=
   [ [AIntern 10; ADiag 1; AMemo 7; AIntern 11]; [AIntern 11; ADiag 2; AMemo 7; AEnv 3] ]%Z.
@@ -89,3 +141,14 @@ Proof.
   vm_compute. repeat split; try reflexivity.
   intros t Ht. destruct t as [|[|t]]; [reflexivity|reflexivity|lia].
 Qed.
+
+(* non-vacuity of the micro-step theorems: the atomic expansion of the schedule above is intern_atomic,
+   well formed, and computes the same responses and table as the coarse run; the refuting schedule is
+   well formed and not intern_atomic *)
+Example C11_intern_atomic_nonvacuous :
+  intern_atomic_b (expand c11_sched) = true /\ split_wf_b [] (expand c11_sched) = true /\
+  List.length (expand c11_sched) = 11 /\
+  mexec (fun k => k) (fun k => k) (expand c11_sched) c11_s0 pend0 = exec (fun k => k) (fun k => k) c11_sched c11_s0 /\
+  intern_atomic_b split_sched = false /\ split_wf_b [] split_sched = true /\
+  syms (snd (mexec (fun k => k) (fun k => k) split_sched shared0 pend0)) = [7; 7]%Z.
+Proof. vm_compute. repeat split; reflexivity. Qed.
